@@ -15,7 +15,7 @@ impl Worker {
         let mut child = Command::new("node")
             .arg("--experimental-vm-modules")
             .arg("--no-warnings")
-            .arg(format!("{}/node/worker.js", crate::engine::VERIF_ROOT))
+            .arg(format!("{}/node/worker.js", crate::engine::verif_root()))
             .stdin(Stdio::piped())
             .stdout(Stdio::piped())
             .stderr(Stdio::inherit())
